@@ -1296,7 +1296,10 @@ class VM:
             this_arg = args[1] if len(args) > 1 else UNDEFINED
             result = JSArray()
             result._elements = []
-            for i, elem in enumerate(arr._elements):
+            for i in range(len(arr._elements)):  # the length is read once
+                if i >= len(arr._elements):
+                    continue  # removed by the callback meanwhile
+                elem = arr._elements[i]
                 val = vm._call_callback(callback, [elem, i, arr], this_arg)
                 result._elements.append(val)
             return result
@@ -1306,7 +1309,10 @@ class VM:
             this_arg = args[1] if len(args) > 1 else UNDEFINED
             result = JSArray()
             result._elements = []
-            for i, elem in enumerate(arr._elements):
+            for i in range(len(arr._elements)):  # the length is read once
+                if i >= len(arr._elements):
+                    continue  # removed by the callback meanwhile
+                elem = arr._elements[i]
                 val = vm._call_callback(callback, [elem, i, arr], this_arg)
                 if to_boolean(val):
                     result._elements.append(elem)
@@ -1323,6 +1329,8 @@ class VM:
                 acc = arr._elements[0]
                 start_idx = 1
             for i in range(start_idx, len(arr._elements)):
+                if i >= len(arr._elements):
+                    continue  # removed by the callback meanwhile
                 elem = arr._elements[i]
                 acc = vm._call_callback(callback, [acc, elem, i, arr])
             return acc
@@ -1339,6 +1347,8 @@ class VM:
                 acc = arr._elements[length - 1]
                 start_idx = length - 2
             for i in range(start_idx, -1, -1):
+                if i >= len(arr._elements):
+                    continue  # removed by the callback meanwhile
                 elem = arr._elements[i]
                 acc = vm._call_callback(callback, [acc, elem, i, arr])
             return acc
@@ -1375,7 +1385,10 @@ class VM:
         def forEach_fn(*args):
             callback = require_callable(args[0] if args else UNDEFINED, "forEach callback")
             this_arg = args[1] if len(args) > 1 else UNDEFINED
-            for i, elem in enumerate(arr._elements):
+            for i in range(len(arr._elements)):  # the length is read once
+                if i >= len(arr._elements):
+                    continue  # removed by the callback meanwhile
+                elem = arr._elements[i]
                 vm._call_callback(callback, [elem, i, arr], this_arg)
             return UNDEFINED
 
@@ -1402,7 +1415,8 @@ class VM:
         def find_fn(*args):
             callback = require_callable(args[0] if args else UNDEFINED, "find callback")
             this_arg = args[1] if len(args) > 1 else UNDEFINED
-            for i, elem in enumerate(arr._elements):
+            for i in range(len(arr._elements)):  # the length is read once; every index is visited
+                elem = arr._elements[i] if i < len(arr._elements) else UNDEFINED
                 val = vm._call_callback(callback, [elem, i, arr], this_arg)
                 if to_boolean(val):
                     return elem
@@ -1411,7 +1425,8 @@ class VM:
         def findIndex_fn(*args):
             callback = require_callable(args[0] if args else UNDEFINED, "findIndex callback")
             this_arg = args[1] if len(args) > 1 else UNDEFINED
-            for i, elem in enumerate(arr._elements):
+            for i in range(len(arr._elements)):  # the length is read once; every index is visited
+                elem = arr._elements[i] if i < len(arr._elements) else UNDEFINED
                 val = vm._call_callback(callback, [elem, i, arr], this_arg)
                 if to_boolean(val):
                     return i
@@ -1420,7 +1435,10 @@ class VM:
         def some_fn(*args):
             callback = require_callable(args[0] if args else UNDEFINED, "some callback")
             this_arg = args[1] if len(args) > 1 else UNDEFINED
-            for i, elem in enumerate(arr._elements):
+            for i in range(len(arr._elements)):  # the length is read once
+                if i >= len(arr._elements):
+                    continue  # removed by the callback meanwhile
+                elem = arr._elements[i]
                 val = vm._call_callback(callback, [elem, i, arr], this_arg)
                 if to_boolean(val):
                     return True
@@ -1429,7 +1447,10 @@ class VM:
         def every_fn(*args):
             callback = require_callable(args[0] if args else UNDEFINED, "every callback")
             this_arg = args[1] if len(args) > 1 else UNDEFINED
-            for i, elem in enumerate(arr._elements):
+            for i in range(len(arr._elements)):  # the length is read once
+                if i >= len(arr._elements):
+                    continue  # removed by the callback meanwhile
+                elem = arr._elements[i]
                 val = vm._call_callback(callback, [elem, i, arr], this_arg)
                 if not to_boolean(val):
                     return False
